@@ -856,16 +856,19 @@ class BeaconConfig:
             fxor = XorEncodedFile.from_file(fobj)
         except ValueError:
             fxor = fobj
-        for grconfig in iter_guardrail_configs_with_beacon(fxor):
-            if not grconfig.unmasked_beacon_config:
-                continue
-            bconfig = cls(grconfig.unmasked_beacon_config)
-            bconfig.guardrails = grconfig
-            bconfig.xorkey = grconfig.beacon_xor_key
-            bconfig.xorencoded = fxor is not fobj
-            bconfig.pe_compile_stamp, bconfig.pe_export_stamp = pe.find_compile_stamps(fxor)
-            bconfig.architecture = pe.find_architecture(fxor)
-            return bconfig
+        # like for the config blocks above: the XorDecoded view first, then the file itself (the XorEncoded detection
+        # is lenient, a file that is not XorEncoded at all can pass it)
+        for fh in [fxor] if fxor is fobj else [fxor, fobj]:
+            for grconfig in iter_guardrail_configs_with_beacon(fh):
+                if not grconfig.unmasked_beacon_config:
+                    continue
+                bconfig = cls(grconfig.unmasked_beacon_config)
+                bconfig.guardrails = grconfig
+                bconfig.xorkey = grconfig.beacon_xor_key
+                bconfig.xorencoded = fh is not fobj
+                bconfig.pe_compile_stamp, bconfig.pe_export_stamp = pe.find_compile_stamps(fh)
+                bconfig.architecture = pe.find_architecture(fh)
+                return bconfig
 
         raise ValueError("No valid Beacon configuration found")
 
